@@ -25,6 +25,12 @@ enum Op {
     WRemoveAll,
     WCommit,
     WCommitKeepNode,
+    /// commit(), then open() again on the same WritableZone: the next batch of a
+    /// multi-batch update (what ZoneUpdater does at every IXFR batch)
+    WCommitReopen,
+    /// a second writer asks for the zone (Zone::write() polled once): it must not
+    /// be admitted while the first writer is still there
+    W2Try,
     /// commit() of a diff-collecting writer while a node handle is still alive:
     /// the documented `arc_into_inner(diff).unwrap()` panic unwinds out of
     /// commit(); the writer dies by unwinding = a crash point inside commit
@@ -93,6 +99,8 @@ fn enabled(m: &Model, op: Op, thorough: bool) -> bool {
     match op {
         Op::WOpen | Op::WOpenDiff => m.working.is_none(),
         Op::WCommitFault => m.working.is_some() && m.diff_mode,
+        Op::WCommitReopen => m.working.is_some() && !m.diff_mode,
+        Op::W2Try => m.working.is_some(),
         Op::WUpd(..) | Op::WRm(_) | Op::WRemoveAll | Op::WCommit | Op::WDrop => m.working.is_some(),
         Op::WCommitKeepNode => thorough && m.working.is_some() && !m.stale_node && !m.diff_mode, // with a diff this is WCommitFault
         Op::WStaleUpd(..) => m.stale_node,
@@ -178,6 +186,29 @@ fn step(m: &mut Model, r: &mut Real, op: Op, out: &mut Vec<Viol>) {
             drop(w);
             m.committed.push(m.working.take().unwrap());
             m.diff_mode = false;
+        }
+        Op::WCommitReopen => {
+            let (mut w, node) = r.writer.take().unwrap();
+            drop(node);
+            r.rt.block_on(w.commit(false)).unwrap();
+            let node = r.rt.block_on(w.open(false)).unwrap();
+            r.writer = Some((w, Some(node)));
+            let c = m.working.clone().unwrap();
+            m.committed.push(c);
+        }
+        Op::W2Try => {
+            use futures_util::FutureExt;
+            let second = {
+                let _g = r.rt.enter();
+                r.zone.write().now_or_never()
+            };
+            if let Some(w2) = second {
+                drop(w2);
+                out.push(Viol {
+                    sig: "C09|writers-not-serialised|second-writer-admitted-while-the-first-is-still-open".into(),
+                    what: format!("Zone::write() completed for a second writer although the first writer (working on top of version {}) has neither finished nor been dropped", m.committed.len() - 1),
+                });
+            }
         }
         Op::WStaleUpd(n, v) => {
             // a write through a node handle obtained before the commit: nothing
@@ -282,6 +313,8 @@ fn parse_op(t: &str) -> Op {
         "WCommit" => Op::WCommit,
         "WCommitKeepNode" => Op::WCommitKeepNode,
         "WCommitFault" => Op::WCommitFault,
+        "WCommitReopen" => Op::WCommitReopen,
+        "W2Try" => Op::W2Try,
         "WStaleUpd" => Op::WStaleUpd(nums[0], nums[1]),
         "WDrop" => Op::WDrop,
         "RAcq" => Op::RAcq(nums[0]),
@@ -329,7 +362,7 @@ fn main() {
     let ctx = Ctx::new("C09", "model_checking");
     let stats = Stats::new();
     let thorough = !ctx.quick();
-    let mut ops: Vec<Op> = vec![Op::WOpen, Op::WOpenDiff, Op::WUpd(0, 2), Op::WUpd(1, 3), Op::WUpd(2, 4), Op::WRm(0), Op::WRemoveAll, Op::WCommit, Op::WCommitFault, Op::WDrop, Op::RAcq(0), Op::RObs(0), Op::RRel(0), Op::RAcq(1), Op::RObs(1)];
+    let mut ops: Vec<Op> = vec![Op::WOpen, Op::WOpenDiff, Op::WUpd(0, 2), Op::WUpd(1, 3), Op::WUpd(2, 4), Op::WRm(0), Op::WRemoveAll, Op::WCommit, Op::WCommitFault, Op::WCommitReopen, Op::W2Try, Op::WDrop, Op::RAcq(0), Op::RObs(0), Op::RRel(0), Op::RAcq(1), Op::RObs(1)];
     if thorough {
         ops.extend([Op::WUpd(0, 5), Op::WRm(1), Op::WCommitKeepNode, Op::WStaleUpd(0, 7), Op::WStaleUpd(2, 8), Op::RRel(1)]);
     }
@@ -428,7 +461,7 @@ fn main() {
             "traces_validated_against_impl": transitions,
             "evaluations": transitions,
             "distinct_nontrivial": stats.distinct_count(),
-            "rule": "BFS over all interleavings (operation granularity) of one writer at a time (open with and without diff collection/update/remove/remove_all/commit/commit that unwinds at its documented panic point (diff collected + node handle alive)/drop; thorough: also commit-keeping-the-node and writes through that stale node) and two readers (acquire/observe/release) to the depth bound, every history replayed on a fresh real zone; states deduplicated on (model state, sorted Debug rendering of the real zone incl. version vectors)",
+            "rule": "BFS over all interleavings (operation granularity) of one writer at a time (open with and without diff collection/update/remove/remove_all/commit/commit-then-reopen (multi-batch)/a second writer's attempt to get the zone while the first is open/commit that unwinds at its documented panic point (diff collected + node handle alive)/drop; thorough: also commit-keeping-the-node and writes through that stale node) and two readers (acquire/observe/release) to the depth bound, every history replayed on a fresh real zone; states deduplicated on (model state, sorted Debug rendering of the real zone incl. version vectors)",
             "exhaustive": true,
             "depth": depth,
             "alphabet": ops.iter().map(|o| format!("{:?}", o)).collect::<Vec<_>>(),
